@@ -124,6 +124,22 @@ impl Chunker {
         }
     }
 
+    /// push without de-duplication (step events of a group repeat legitimately)
+    pub fn push_raw(&mut self, ev: Value) {
+        if let Some(k) = ev.get("ev").and_then(|k| k.as_str()) {
+            *self.kinds.entry(k.to_string()).or_insert(0) += 1;
+            // never split a group: flush only before a w.begin
+            if k == "w.begin" && self.cur.len() >= self.max_events {
+                self.flush();
+            }
+        }
+        if self.samples.len() < 12 {
+            self.samples.push(ev.clone());
+        }
+        self.cur.push(ev.to_string());
+        self.total += 1;
+    }
+
     pub fn flush(&mut self) {
         if self.cur.is_empty() {
             return;
